@@ -211,6 +211,28 @@ impl ManagedXValue {
     { unimplemented!() }
 }
 
+/// std::collections::hash_map::DefaultHasher as the list of words written to it; `finish` is a function of that list
+pub struct DefaultHasher { pub w: Ghost<Seq<u64>> }
+pub uninterp spec fn hfin(w: Seq<u64>) -> u64;
+impl DefaultHasher {
+    #[verifier::external_body]
+    pub fn new() -> (r: DefaultHasher) ensures r.w@ == Seq::<u64>::empty() { unimplemented!() }
+    #[verifier::external_body]
+    pub fn write_u64(&mut self, x: u64) ensures final(self).w@ == old(self).w@.push(x) { unimplemented!() }
+    #[verifier::external_body]
+    pub fn finish(&self) -> (r: u64) ensures r == hfin(self.w@) { unimplemented!() }
+}
+pub struct ManagedXError;
+impl ManagedXError {
+    #[verifier::external_body]
+    pub fn new(error: &str, rt: Rt) -> (r: RuntimeResult<ErrV>) { unimplemented!() }
+}
+/// builtin/core.rs `xerr`
+#[verifier::external_body]
+pub fn xerr(err: ErrV) -> (r: RuntimeResult<TailedEvalResult>)
+    ensures r == Ok::<TailedEvalResult, RuntimeViolation>(TailedEvalResult::Value(Err(err))),
+{ unimplemented!() }
+
 pub struct XExpr { pub id: Ghost<int> }
 /// what an argument expression evaluates to (when evaluation is not cut short by a violation)
 pub uninterp spec fn ev(e: XExpr) -> EvaluatedValue;
@@ -253,6 +275,25 @@ pub open spec fn funcs_answer_int(funcs: Items) -> bool {
     forall|k: int, s: Seq<EvaluatedValue>| 0 <= k < funcs.v@.len() ==> funcs.v@[k].value is Function
         && ((#[trigger] apply(funcs.v@[k].value->Function_0, s)) matches Ok(c) ==> c.value is Int)
 }
+pub mod ext {
+    use vstd::prelude::*;
+    use super::*;
+    pub broadcast proof fn lemma_apply1(f: Func, s: Seq<EvaluatedValue>)
+        requires s.len() == 1,
+        ensures #[trigger] apply(f, s) == apply(f, seq![s[0]]),
+    { assert(s =~= seq![s[0]]); }
+}
+/// the hash the k-th component function answers for x[k]
+pub open spec fn hans(funcs: Items, x: Items, k: int) -> EvaluatedValue {
+    apply(funcs.v@[k].value->Function_0, seq![Ok(x.v@[k])])
+}
+/// the hash the element function answers for the k-th element of a sequence
+pub open spec fn shans(f: Val, x: XSeq, k: int) -> EvaluatedValue {
+    apply(f.value->Function_0, seq![x.at(k)->Ok_0])
+}
+/// a clean hash answer: an Int that fits u64
+pub open spec fn hok(a: EvaluatedValue) -> bool { a matches Ok(v) && v.value is Int && 0 <= v.value->Int_0.val() <= u64::MAX }
+pub open spec fn hval(a: EvaluatedValue) -> u64 { a->Ok_0.value->Int_0.val() as u64 }
 /// both arguments evaluate to tuples of the arity of the component-function table (or to error values)
 pub open spec fn tuple_args(args: &[XExpr], funcs: Items) -> bool {
     args@.len() == 2
